@@ -221,18 +221,18 @@ Qed.
 Lemma repeat_breaks_row (f g : nat -> pix) (n : Z) (m : nat) :
   (forall i, f i = f (S i) <-> idx n m i = idx n m (S i)) ->
   (forall i, (S i <= m - 1)%nat -> g (m - 1 - S i)%nat = g (m - 1 - i)%nat <-> idx n m i = idx n m (S i)) ->
-  1 <= n -> (2 <= m)%nat -> n < Z.of_nat m ->
+  2 <= n -> (2 <= m)%nat -> n < Z.of_nat m ->
   NoDup (map f (seq 0 (m - 1))) -> NoDup (map g (seq 0 (m - 1))) -> False.
 Proof.
   intros Hf Hg Hn Hm Hnm Ht Hb.
-  destruct (idx_repeat n m Hn Hm Hnm) as [i [Hi He]].
+  destruct (idx_repeat n m ltac:(lia) Hm Hnm) as [i [Hi He]].
   destruct (Nat.eq_dec (S i) (m - 1)) as [Hlast|Hnl].
   - (* positions m-2 and m-1: both in the bottom row (as positions 1 and 0 of the descending table) *)
     assert (H := NoDup_map_seq_inv g (m - 1) (m - 1 - S i) (m - 1 - i) Hb).
     assert ((m - 1 - S i)%nat = (m - 1 - i)%nat); [|lia].
-    apply H; try lia. apply Hg; [lia|exact He].
+    apply H; try lia. apply (proj2 (Hg i ltac:(lia))). exact He.
   - assert (H := NoDup_map_seq_inv f (m - 1) i (S i) Ht).
-    assert (i = S i); [|lia]. apply H; try lia. apply Hf. exact He.
+    assert (i = S i); [|lia]. apply H; try lia. apply (proj2 (Hf i)). exact He.
 Qed.
 
 Lemma no_repeat_only_if h w rn cn : 2 <= h -> 2 <= w -> (2 <= rn)%nat -> (2 <= cn)%nat ->
